@@ -106,10 +106,18 @@ AsmLayouts == \A p \in DOMAIN A.progs :
   (AP(p).k = "instr" /\ AP(p).ins.i \in {"pack", "unpack"}) =>
      LET l == AP(p).ins.layout IN l.elements > 0 /\ l.arity >= l.elements /\ l.fields = l.arity
 
+(* SysV AMD64: rsp % 16 = 8 on entry and = 0 immediately before every call.  The emitter keeps a record of the   *)
+(* parity and pads calls; `amd64_entry` is the branch-free code after `entry:` of the emitted text reduced to     *)
+(* parity flips and calls: every call must be reached after an ODD number of flips.                               *)
+EntryOps == IF "amd64_entry" \in DOMAIN Progs[pi] THEN Progs[pi].amd64_entry ELSE << >>
+EntryCallsAligned == \A i \in DOMAIN EntryOps : EntryOps[i] = "call" =>
+                       Cardinality({j \in 1..(i - 1) : EntryOps[j] = "flip"}) % 2 = 1
+
 WFReport == (steps = 0) =>
   PrintT(<<"REPLAY", ToJson([k |-> "wf", id |-> Progs[pi].id, RootClosed |-> RootClosed, BlocksClosed |-> BlocksClosed, LabelsUnique |-> LabelsUnique,
              BranchJoin |-> BranchJoin, OwnerCount |-> OwnerCount, NoHoles |-> NoHoles,
-             AsmTargets |-> AsmTargets, AsmSymbols |-> AsmSymbols, AsmLayouts |-> AsmLayouts])>>)
+             AsmTargets |-> AsmTargets, AsmSymbols |-> AsmSymbols, AsmLayouts |-> AsmLayouts,
+             EntryCallsAligned |-> EntryCallsAligned])>>)
 
 ----------------------------------------------------------------------------
 (* Part 2: reference semantics.                                            *)
